@@ -18,6 +18,26 @@ notes={
 "C16-m1":"missed at first (all subscribers were Running when subscribed); a quarter of the subscribers are now spawn_instant actors with a slow pre_start, subscribed while still starting",
 "C19-m2":"missed at first (job envelopes were only round-tripped with 8-byte keys); added keys of encoded length 0-3 bytes ((), strings, vectors)",
 }
+notes.update({
+"C01-m3":"wave 2. Missed at first (the Send->thread-local blanket adapter was not driven); C01/C03 th subjects are now, in half of the thread-local cases, a Send actor spawned through that adapter",
+"C01-m4":"wave 2. Not observable as a C01 violation (no kill is ever delivered; C01's requesters call kill() directly); it is a timer defect (kill_after must stop its target) and is reported by C12 through the new clause kill-after-ignored",
+"C02-m3":"wave 2. Missed at first (no mailbox ever reached 256 entries while supervision events were arriving); added the 'deep' scenario: hundreds of sends queued at once + pg notifications to the subject",
+"C02-m4":"wave 2. The harness did not compile against the changed signature at first (non-'static closure: exit 3, inconclusive); fixed, and call_and_forward is now used as a send in C02's virtual-time senders (order / refusal), `call` in both engines",
+"C04-m4":"wave 2. Missed at first by C04 (exits were requested while idle, in a handler or in post_start, never in the supervision handler); added timing 3 (parked in handle_supervisor_evt). C03's arrival sweep reported it from the start",
+"C06-m4":"wave 2. Missed at first by C06 (nothing re-used the name during the exit); added the successor clause (a successor takes the name while the subject is in post_stop; where_is must still yield it afterwards). C10 reported it from the start",
+"C07-m3":"wave 2. Missed at first (only Send actors were drained before their start ran); added thread-local spawn_instant + sends + drain with the spawner thread held or racing",
+"C09-m3":"wave 2. Missed at first (DerivedActorRef::call has its own code path and was not used); a fifth of the calls now go through a DerivedActorRef",
+"C10-m4":"wave 2. Missed at first (only Send actors contended for names in C10); one spawn in four on the thread engine is now a thread-local actor",
+"C11-m3":"wave 2. Missed at first (every actor had a single writer thread, so a join never raced the exit of one of its actors); added two-writer scenario B with per-group Join/Leave balance from an all-scopes monitor",
+"C11-m4":"wave 2. Missed at first (single-writer workloads); added two-writer scenario C (leave vs join of the same actor on two threads, then exit)",
+"C12-m4":"wave 2. Missed at first ('abort at the same instant' tolerated 0 or 1 deliveries); added abort-right-after-creation with no await in between, where nothing may be delivered",
+"C14-m4":"wave 2. Missed at first (the inside-the-pool clause was only evaluated on 'stable' pools, i.e. not while workers beyond the requested size were draining); re-stated on the requested size once the resize has been processed",
+"C16-m4":"wave 2. Missed at first (subscriptions were made by the publisher task itself, never concurrently); added the steady-subscriber scenario with subscriptions from another OS thread and a paced publisher",
+"C17-m4":"wave 2. Missed at first (short cookies); the right and the wrong cookie are now 90 characters long and differ only in their tail",
+"C18-m4":"wave 2. Missed at first (the at-most-one-ready clause had been relaxed to sampled GetSessions because a displaced link's disconnected event may trail); added ready-for-loser, decided from each node's own event order and the real election function, and relayed links so that handshakes overlap",
+"C19-m4":"wave 2. Missed at first (oversize frames were far above every limit); added declared lengths between this server's configured cap and the library default",
+"C20-m3":"wave 2. Missed at first (every target was Running when the link came up); the first target is now, in a third of the scenarios, a spawn_instant actor still in pre_start during authentication and synchronisation",
+})
 for k,t in notes.items():
     p=f'/verif/seeded/{k}/meta.json'
     m=json.load(open(p)); m['first_run_missed']=True; m['strengthening']=t
